@@ -149,6 +149,7 @@ func checkC03(p *Program, r *Result) {
 		"(C03.a) every sort of the pending message queue uses a stable API; (C03.b) its comparator is one strict comparison of the two elements' timestamp, '<' under LogTimeOrder and '>' under ReverseLogTimeOrder; " +
 		"(C03.c) per order, the primary key of the chunk-index sort is the chunk field that NextInto compares with the head message before yielding (start time ascending / end time descending), with matching direction; " +
 		"(C03.d) in reverse order the newly indexed segment is reversed before the stable sort; " +
+		"(C03.g) the bytes NextInto hands to PopulateFrom are sliced from the chunk slot and offset of the queue entry at the cursor, and the load trigger compares that entry's timestamp; " +
 		"(C03.e) after loading a chunk control returns to the head of the yield loop (the load trigger is re-evaluated) before any message is yielded."
 	r.NotDecided = []string{"that the two-queue merge yields every selected message exactly once in order for every overlap pattern (run-time)"}
 	r.rule("C03.a", "pending-message queue is sorted with a stable API", 1)
@@ -405,6 +406,8 @@ func checkC03(p *Program, r *Result) {
 	}
 	// ---- e: after loadChunk, no yield without passing the loop head again
 	checkReloopAfterLoad(p, r, ni)
+	r.rule("C03.g", "the yielded record and the load trigger are those of the queue entry at the cursor", 0)
+	checkCursorDiscipline(p, r, "C03.g")
 }
 
 func staticCalleeName2(f *ssa.Function) string {
